@@ -7,6 +7,7 @@ import (
 	"io"
 	"iter"
 	"path/filepath"
+	"runtime"
 	"strings"
 	"sync"
 	"sync/atomic"
@@ -154,29 +155,30 @@ type Worker struct {
 }
 
 type Cluster struct {
-	Cfg      Config
-	mu       sync.Mutex
-	Job      *jobs.Job
-	JobClock *clocks.FrozenClock
-	Loc      *RecLocation
-	Store    *ophar.ShadowStore
-	workers  []*Worker
-	byOp     map[string]*Worker
-	bySR     map[string]*Worker
-	stream   []StreamEv
-	srAcks   []SRAck
-	opAcks   []OpAck
-	deploys  []DeployRec
-	startCk  []StartCkRec
-	keyed    []KeyedRec
-	round    int
-	inRound  map[string]bool
-	edgeErrs []string
-	keyedMax map[string]int64
-	errc     chan error
-	jobErrs  []error
-	nextW    int
-	TimerFn  func(key []byte, t int64) ophar.Program
+	Cfg       Config
+	mu        sync.Mutex
+	Job       *jobs.Job
+	JobClock  *clocks.FrozenClock
+	Loc       *RecLocation
+	Store     *ophar.ShadowStore
+	workers   []*Worker
+	byOp      map[string]*Worker
+	bySR      map[string]*Worker
+	stream    []StreamEv
+	srAcks    []SRAck
+	opAcks    []OpAck
+	deploys   []DeployRec
+	startCk   []StartCkRec
+	keyed     []KeyedRec
+	round     int
+	inRound   map[string]bool
+	edgeErrs  []string
+	rpcPanics []string
+	keyedMax  map[string]int64
+	errc      chan error
+	jobErrs   []error
+	nextW     int
+	TimerFn   func(key []byte, t int64) ophar.Program
 	// fault policies
 	HoldOpAck  func(a OpAck) // called before forwarding an operator ack to the job (may block)
 	HoldSRAck  func(a SRAck) // same for source-runner acks
@@ -661,7 +663,8 @@ func (a *opAd) enter() (*Worker, func()) {
 	return w, w.inflight.Done
 }
 
-func (a *opAd) HandleEventBatch(ctx context.Context, b []*workerpb.Event) error {
+func (a *opAd) HandleEventBatch(ctx context.Context, b []*workerpb.Event) (err error) {
+	defer a.c.rpcRecover("HandleEventBatch("+a.sender+" -> "+a.node.Id+")", &err)
 	w := a.target()
 	if w == nil {
 		return errors.New("verif: operator unreachable")
@@ -716,7 +719,8 @@ func wmNanos(sec int64, nanos int32) int64 {
 	return sec*1_000_000_000 + int64(nanos)
 }
 
-func (a *opAd) Deploy(ctx context.Context, r *workerpb.DeployOperatorRequest) error {
+func (a *opAd) Deploy(ctx context.Context, r *workerpb.DeployOperatorRequest) (err error) {
+	defer a.c.rpcRecover("Deploy("+a.node.Id+")", &err)
 	w, leave := a.enter()
 	defer leave()
 	rec := DeployRec{Tick: lib.Tick.Add(1), Node: a.node.Id, Kind: "operator", DeadNode: w == nil}
@@ -765,21 +769,47 @@ func (a *opAd) Deploy(ctx context.Context, r *workerpb.DeployOperatorRequest) er
 	return rec.Err
 }
 
-func (a *opAd) UpdateRetainedCheckpoints(ctx context.Context, ids []uint64) error {
+func (a *opAd) UpdateRetainedCheckpoints(ctx context.Context, ids []uint64) (err error) {
 	w, leave := a.enter()
 	defer leave()
+	defer a.c.rpcRecover("UpdateRetainedCheckpoints("+a.node.Id+")", &err)
 	if w == nil {
 		return errors.New("verif: operator unreachable")
 	}
 	return w.Op.HandleRemoveCheckpoints(ctx, &workerpb.UpdateRetainedCheckpointsRequest{CheckpointIds: ids})
 }
 
-func (a *opAd) NeedsTable(ctx context.Context, uri string) (bool, error) {
+func (a *opAd) NeedsTable(ctx context.Context, uri string) (needs bool, err error) {
+	defer a.c.rpcRecover("NeedsTable("+a.node.Id+")", &err)
 	w := a.target()
 	if w == nil {
 		return false, errors.New("verif: operator unreachable")
 	}
 	return w.Op.HandleNeedsTable(uri), nil
+}
+
+// rpcRecover models the RPC server of a worker: a panic raised on the goroutine that serves a request (net/http
+// recovers it, the caller gets an error) does not take the process down. Panics on the worker's own goroutines
+// (event loop, background tasks) still do. Recorded as an edge error and counted.
+func (c *Cluster) rpcRecover(what string, err *error) {
+	if p := recover(); p != nil {
+		buf := make([]byte, 3000)
+		buf = buf[:runtime.Stack(buf, false)]
+		c.mu.Lock()
+		c.edgeErrs = append(c.edgeErrs, fmt.Sprintf("%s: request handler panicked: %v", what, p))
+		c.rpcPanics = append(c.rpcPanics, fmt.Sprintf("%s: %v\n%s", what, p, buf))
+		c.mu.Unlock()
+		if err != nil {
+			*err = fmt.Errorf("verif: request handler panicked: %v", p)
+		}
+	}
+}
+
+// RPCPanics: request handlers of workers that panicked (each with its stack).
+func (c *Cluster) RPCPanics() []string {
+	c.mu.Lock()
+	defer c.mu.Unlock()
+	return append([]string{}, c.rpcPanics...)
 }
 
 type srAd struct {
@@ -798,7 +828,8 @@ func (a *srAd) target() *Worker {
 	}
 	return w
 }
-func (a *srAd) Deploy(ctx context.Context, r *workerpb.DeploySourceRunnerRequest) error {
+func (a *srAd) Deploy(ctx context.Context, r *workerpb.DeploySourceRunnerRequest) (err error) {
+	defer a.c.rpcRecover("Deploy("+a.node.Id+")", &err)
 	w := a.target()
 	rec := DeployRec{Tick: lib.Tick.Add(1), Node: a.node.Id, Kind: "runner", DeadNode: w == nil}
 	for _, m := range r.Operators {
@@ -822,14 +853,16 @@ func (a *srAd) Deploy(ctx context.Context, r *workerpb.DeploySourceRunnerRequest
 	rec.Err = w.SR.HandleDeploy(ctx, r)
 	return rec.Err
 }
-func (a *srAd) AssignSplits(ctx context.Context, s []*workerpb.SourceSplit) error {
+func (a *srAd) AssignSplits(ctx context.Context, s []*workerpb.SourceSplit) (err error) {
+	defer a.c.rpcRecover("AssignSplits("+a.node.Id+")", &err)
 	w := a.target()
 	if w == nil {
 		return errors.New("verif: source runner unreachable")
 	}
 	return w.SR.HandleAssignSplits(s)
 }
-func (a *srAd) StartCheckpoint(ctx context.Context, id uint64) error {
+func (a *srAd) StartCheckpoint(ctx context.Context, id uint64) (err error) {
+	defer a.c.rpcRecover("StartCheckpoint("+a.node.Id+")", &err)
 	w := a.target()
 	a.c.mu.Lock()
 	a.c.startCk = append(a.c.startCk, StartCkRec{Tick: lib.Tick.Add(1), Node: a.node.Id, ID: id, Dead: w == nil})
